@@ -272,9 +272,13 @@ class _Expander(Rewriter):
             return node if body is node.body else _rebuild(node, {"body": body})
         new = self.generic(node)
         if isinstance(new, ast.Subscript) and is_S(new.slice, "index") and len(new.slice.args) == 2 \
-                and not isinstance(new.value, (ast.Name, ast.Constant)) and U(new.value) == U(new.slice.args[0]):
-            # E[Σindex(E, tag)] is the element the loop is at:  Σelem(E, tag)
-            return S("elem", new.slice.args[0], new.slice.args[1])
+                and not isinstance(new.value, (ast.Name, ast.Constant)):
+            over = new.slice.args[0]
+            # E[Σindex(E, tag)] is the element the loop is at:  Σelem(E, tag); same for the tail loop over E[k:]
+            if U(new.value) == U(over) or (
+                    isinstance(over, ast.Subscript) and isinstance(over.slice, ast.Slice) and over.slice.upper is None
+                    and over.slice.step is None and U(over.value) == U(new.value)):
+                return S("elem", over, new.slice.args[1])
         if RECORDS and isinstance(new, (ast.Attribute, ast.Subscript)):
             return _project_record(new)
         if isinstance(new, ast.Call) and isinstance(new.func, ast.Call):
@@ -338,6 +342,14 @@ def iter_bindings(target: ast.AST, it: ast.expr, tag: ast.Constant):
                 and it.args[0].func.id == "len" and len(it.args[0].args) == 1 and not it.args[0].keywords:
             yield target.id, S("index", it.args[0].args[0], tag)
             return
+        # for idx in range(k, len(E)):  the position of an element of E[k:]
+        if isinstance(it, ast.Call) and isinstance(it.func, ast.Name) and it.func.id == "range" and len(it.args) == 2 \
+                and not it.keywords and isinstance(it.args[0], ast.Constant) and isinstance(it.args[0].value, int) \
+                and it.args[0].value > 0 and isinstance(it.args[1], ast.Call) and isinstance(it.args[1].func, ast.Name) \
+                and it.args[1].func.id == "len" and len(it.args[1].args) == 1 and not it.args[1].keywords:
+            tail = ast.Subscript(value=it.args[1].args[0], slice=ast.Slice(lower=it.args[0], upper=None, step=None), ctx=ast.Load())
+            yield target.id, S("index", tail, tag)
+            return
         yield target.id, S("elem", it, tag)
         return
     if isinstance(target, (ast.Tuple, ast.List)):
@@ -371,6 +383,16 @@ def iter_bindings(target: ast.AST, it: ast.expr, tag: ast.Constant):
         return
     if isinstance(target, ast.Starred):
         yield from iter_bindings(target.value, it, tag)
+
+
+def _simplify_literal_index(expr):
+    """``(a, b)[0]`` -> ``a`` for a tuple / list literal indexed by an integer literal."""
+    if isinstance(expr, ast.Subscript) and isinstance(expr.value, (ast.Tuple, ast.List)) and isinstance(expr.slice, ast.Constant) \
+            and isinstance(expr.slice.value, int) and not isinstance(expr.slice.value, bool) \
+            and -len(expr.value.elts) <= expr.slice.value < len(expr.value.elts) \
+            and not any(isinstance(e, ast.Starred) for e in expr.value.elts):
+        return _simplify_literal_index(expr.value.elts[expr.slice.value])
+    return expr
 
 
 def _bind_names(target, value):
@@ -607,8 +629,15 @@ class Interp:
                 body.push("iter", node, iteration)
                 if is_for:
                     it = expand(node.iter, body.vars, body.counter)
-                    for name, value in iter_bindings(node.target, it, body.fresh()):
-                        body.set(name, value)
+                    if known_len is not None and isinstance(it, (ast.List, ast.Tuple)) and iteration < len(it.elts) \
+                            and isinstance(node.target, (ast.Tuple, ast.List)):
+                        # a local list literal of tuples (pairs collected in a first pass): the k-th iteration unpacks
+                        # exactly its k-th element
+                        for name, value in _bind_names(node.target, it.elts[iteration]):
+                            body.set(name, _simplify_literal_index(value))
+                    else:
+                        for name, value in iter_bindings(node.target, it, body.fresh()):
+                            body.set(name, value)
                 for out_state, outcome in self.block(node.body, body):
                     if outcome in ("fall", "continue"):
                         nxt.append(out_state)
